@@ -235,6 +235,14 @@ def monitor(script):
                 if want is not None and want.lstrip("-").isdigit() and x != want:
                     m.hit("C01:getheaders-mismatch", f"GetHeaders({a}, {mm.group(2)}) has {x} at height {hgt}, Hash({hgt}) = {want}")
                     break
+            else:
+                # ---- C09: a range stops early although the next height is served by Hash(height)
+                nreq = int(mm.group(2))
+                if a >= 0 and len(ids) < min(nreq, d.h - a + 1):
+                    nxt = d.at.get(a + len(ids))
+                    if nxt is not None and nxt.lstrip("-").isdigit():
+                        m.hit("C09:getheaders-short", f"GetHeaders({a}, {nreq}) returned {len(ids)} headers and stops below height {a + len(ids)} (tip height {d.h}), "
+                              f"which Hash({a + len(ids)}) = {nxt} serves")
         # ---- C01: linked ancestry, maximal work
         ids_at = []
         ok_at = not sampled
